@@ -152,6 +152,7 @@ static std::vector<uint8_t> gen_atom_table(Src& s, const GRule& r)
   return t;
 }
 
+static const char* SIG_XOR_RANGE_ATOM = "C12:atom-table:ascii+wide+xor(a-b)-string:occurrence-with-key-outside-the-range-found-or-not-depending-on-the-atom";
 static bool fixed_length(const GStr& g)
 {
   if (g.kind == 0)
@@ -467,8 +468,9 @@ std::string run_case(Src& s, CaseInfo& ci)
       Trace t = scan_simple(A.r, bufs[bi], 0, true);
       const MsgRec* m = t.rule("default:r0");
       const MsgRec* b = traces[bi].rule("default:r0");
-      if (!m || (m->kind == 'M') != verdict[bi])
-        return strf("buffer %zu: atom quality table changes the verdict of r0", bi);
+      if (!m)
+        return strf("buffer %zu: r0 not reported with the atom quality table", bi);
+      bool known_diff = false;
       for (size_t si = 0; si < b->strings.size() && si < m->strings.size(); si++)
       {
         const auto& x = b->strings[si].m;
@@ -477,9 +479,39 @@ std::string run_case(Src& s, CaseInfo& ci)
         for (size_t k = 0; same && k < x.size(); k++)
           same = x[k].off == y[k].off && (!fixed_length(base.strs[si]) || x[k].len == y[k].len);
         if (!same)
-          return strf("buffer %zu: atom quality table changes the matches of %s (%zu vs %zu matches)", bi,
-                      b->strings[si].ident.c_str(), x.size(), y.size());
+        {
+          // known finding shared with C01: an `ascii wide xor(a-b)` string can be reported with a key
+          // outside [a,b] (the verifier derives the key from the data); whether such a spurious
+          // occurrence is found depends on the atom that led there
+          const GStr& gstr = base.strs[si];
+          if (gstr.kind == 0 && gstr.t.has_xor && gstr.t.wide && gstr.t.eff_ascii() && is_known(SIG_XOR_RANGE_ATOM))
+          {
+            auto only_bad = [&](const std::vector<MatchRec>& p, const std::vector<MatchRec>& q) {
+              for (auto& g : p)
+              {
+                bool in_q = false;
+                for (auto& h : q) in_q = in_q || (h.off == g.off && h.len == g.len);
+                if (!in_q && g.key >= gstr.t.xlo && g.key <= gstr.t.xhi)
+                  return false;  // a legitimate occurrence is missing on one side: not this finding
+              }
+              return true;
+            };
+            if (only_bad(x, y) && only_bad(y, x))
+            {
+              ci.known.push_back(SIG_XOR_RANGE_ATOM);
+              known_diff = true;
+              continue;
+            }
+          }
+          std::string lx, ly;
+          for (auto& g : x) lx += strf(" %lld+%d/key%d", (long long) g.off, g.len, g.key);
+          for (auto& g : y) ly += strf(" %lld+%d/key%d", (long long) g.off, g.len, g.key);
+          return strf("buffer %zu: atom quality table changes the matches of %s (%zu vs %zu matches): default table:%s; generated table:%s", bi,
+                      b->strings[si].ident.c_str(), x.size(), y.size(), lx.c_str(), ly.c_str());
+        }
       }
+      if ((m->kind == 'M') != verdict[bi] && !known_diff)
+        return strf("buffer %zu: atom quality table changes the verdict of r0", bi);
       ci.sub_evals++;
     }
   }
